@@ -264,7 +264,9 @@ func c03FastFloat(c *Ctx, p *Prog, R string) {
 			digitOK := false
 			var G *big.Int
 			lo, hi := false, false
-			for k, v := range o.Assign {
+			for _, k := range o.AtomKeys() {
+				v := o.Assign[k]
+				_ = v
 				s := o.AtomSyms[k]
 				if s.Op != "binop" || len(s.Args) != 2 {
 					continue
@@ -1048,7 +1050,9 @@ func c03Dropped(c *Ctx, p *Prog) {
 	for _, o := range outs {
 		// buffer-full and decimal-point-seen on this path
 		full, sawdot := "?", "?"
-		for k, v := range o.Assign {
+		for _, k := range o.AtomKeys() {
+			v := o.Assign[k]
+			_ = v
 			s := o.AtomSyms[k]
 			str := s.String()
 			if s.Op == "binop" && s.Tok == token.LSS && strings.Contains(str, ".nd)") && s.Args[1].isConst() {
@@ -1137,7 +1141,9 @@ func c03Special(c *Ctx, p *Prog) {
 		n++
 		// the comparison that succeeded
 		lit, whole := "", false
-		for k, v := range o.Assign {
+		for _, k := range o.AtomKeys() {
+			v := o.Assign[k]
+			_ = v
 			s := o.AtomSyms[k]
 			if v && s.Op == "call" && strings.HasSuffix(s.Name, ".equalIgnoreCase") && len(s.Args) == 2 {
 				if l, ok := constString2(s.Args[1]); ok {
